@@ -107,14 +107,16 @@ def build_lib(flavour):
     return d
 
 
-def lib_objects(d, regenerated_scanner=False):
+def lib_objects(d, regenerated_scanner=False, no_scanner=False):
     objs = sorted(o for o in glob.glob(d + "/*.o") if not o.endswith("flexgen_lex.o") and not os.path.basename(o).startswith("drv_"))
+    if no_scanner:
+        return [o for o in objs if not o.endswith("lex_yy_c.o")]
     if regenerated_scanner:
         objs = [o for o in objs if not o.endswith("lex_yy_c.o")] + [d + "/flexgen_lex.o"]
     return objs
 
 
-def build_driver(name, flavour, regenerated_scanner=False, extra_src=(), extra_flags=(), link_flags=None):
+def build_driver(name, flavour, regenerated_scanner=False, extra_src=(), extra_flags=(), link_flags=None, no_scanner=False):
     """Builds harness/<name>.cpp against the repository objects of `flavour`; returns the binary path."""
     lock = open(os.path.join(VERIF, ".build.lock"), "w")
     fcntl.flock(lock, fcntl.LOCK_EX)
@@ -122,7 +124,7 @@ def build_driver(name, flavour, regenerated_scanner=False, extra_src=(), extra_f
         d = build_lib(flavour)
         hs = sorted(glob.glob(HARN + "/*.hpp") + glob.glob(HARN + "/sched/*"))
         src = os.path.join(HARN, name + ".cpp")
-        key = sha_files([src] + hs + list(extra_src), flavour + str(regenerated_scanner) + " ".join(extra_flags))
+        key = sha_files([src] + hs + list(extra_src) + ([REPO + "/Compiler/src/lex.yy.c"] if no_scanner else []), flavour + str(regenerated_scanner) + " ".join(extra_flags))
         exe = os.path.join(d, "drv_%s%s-%s" % (name, "-regen" if regenerated_scanner else "", key))
         if os.path.exists(exe):
             return exe
@@ -133,7 +135,7 @@ def build_driver(name, flavour, regenerated_scanner=False, extra_src=(), extra_f
             cmd += FLAGS[flavour]
         else:
             cmd += link_flags
-        cmd += ["-o", exe + ".tmp", src] + list(extra_src) + lib_objects(d, regenerated_scanner)
+        cmd += ["-o", exe + ".tmp", src] + list(extra_src) + lib_objects(d, regenerated_scanner, no_scanner)
         run(cmd)
         os.rename(exe + ".tmp", exe)
         return exe
